@@ -102,6 +102,12 @@ pub fn run(
                 break;
             }
             Some((intersection_vertex_id, _)) => {
+                #[cfg(feature = "verif")]
+                {
+                    use crate::algorithm::search::a_star::a_star_algorithm::verif_hook;
+                    verif_hook::record(verif_hook::KSP_POP_MARKER);
+                    verif_hook::record(intersection_vertex_id.0);
+                }
                 let mut accept_route = true;
                 // create the i'th route by backtracking both trees and concatenating the result
                 let fwd_route = backtrack::vertex_oriented_route(
